@@ -1,27 +1,12 @@
-(* Tie/Sample.v — T-tie for the unweighted descriptive statistics of stats/sample.go (Bounds,
-   Mean, Variance, StdDev on []float64) and vec/vec.go Sum, property C09: the loops generated
-   from the current source compute the loop models of Model/Sample.v (bounds, mean_loop,
-   var_loop, vsum).  math.NaN() and math.Sqrt are opaque (nanv, sqrtf).  The slice length is
-   assumed below 2^62 (the index i+1 is a Go int).  Compiled by bin/ttie. *)
+(* Tie/Sample.v — T-tie for stats/sample.go Bounds on []float64, property C09 (Mean, Variance,
+   StdDev: Tie/SampleMeanVar.v; vec/vec.go Sum and Linspace: Tie/Vec.v, Tie/Linspace.v): the loop
+   generated from the current source computes [bounds] of Model/Sample.v.  math.NaN() is opaque
+   (nanv).  Compiled by bin/ttie. *)
 From Coq Require Import ZArith NArith QArith Qround Qabs List Lia Lqa.
 From MM Require Import Base.Num Base.GoSem Model.Sample.
-From MMGen Require Import Gen_vec_vec Gen_stats_sample.
+From MMGen Require Import Gen_stats_sample.
 Import ListNotations.
 Local Open Scope Q_scope.
-
-Definition fres_val (nanv : Q) (r : fres) : Q := match r with FVal v => v | _ => nanv end.
-Definition len_ok {A} (xs : list A) : Prop := (Z.of_nat (length xs) < 4611686018427387904)%Z.
-
-(* ---------- vec.Sum ---------- *)
-Lemma sum_fold (f : Q -> Q -> Q) : (forall s x, f s x = s + x) ->
-  forall xs a a', a == a' -> fold_left f xs a == fold_left (fun a x => Qred (a + x)) xs a'.
-Proof.
-  intros Hf. induction xs as [|x xs IH]; intros a a' H; cbn [fold_left]; [exact H|].
-  apply IH. rewrite Hf, Qred_correct, H. reflexivity.
-Qed.
-
-Theorem tie_vec_Sum : forall xs : list Q, gen_Sum xs == vsum xs.
-Proof. intros xs. unfold gen_Sum, vsum. cbv zeta. apply sum_fold; [reflexivity | reflexivity]. Qed.
 
 (* ---------- Bounds ---------- *)
 Lemma bounds_fold (f : Q * Q -> Q -> Q * Q) : (forall mn mx x, f (mn, mx) x = bounds_step (mn, mx) x) ->
@@ -39,99 +24,4 @@ Proof.
   match goal with |- (let '(a, b) := fold_left ?f ?l ?i in (a, b)) = _ =>
     transitivity (fold_left f l i);
       [destruct (fold_left f l i); reflexivity | apply (bounds_fold f (fun mn mx x => eq_refl))] end.
-Qed.
-
-(* ---------- Mean ---------- *)
-Lemma mean_fold (f : Q -> Z * Q -> Q) :
-  (forall m i x, f m (i, x) = m + (x - m) / go_i2f (go_sadd 64 i 1)) ->
-  forall xs k m m', m == m' -> (Z.of_nat (k + length xs) < 4611686018427387904)%Z ->
-  fold_left f (enum_from (Z.of_nat k) xs) m == mean_loop xs k m'.
-Proof.
-  intros Hf. induction xs as [|x xs IH]; intros k m m' H Hk; cbn [fold_left enum_from mean_loop]; [exact H|].
-  replace (Z.of_nat k + 1)%Z with (Z.of_nat (S k)) by lia.
-  cbn [length] in Hk. apply IH; [| lia].
-  rewrite Hf, Qred_correct. unfold go_sadd, go_i2f, Qofnat.
-  rewrite wrap_s64_small by lia. replace (Z.of_nat k + 1)%Z with (Z.of_nat (S k)) by lia.
-  rewrite H. reflexivity.
-Qed.
-
-Theorem tie_Mean : forall (nanv : Q) (xs : list Q), len_ok xs ->
-  gen_Mean nanv xs == fres_val nanv (mean xs).
-Proof.
-  intros nanv xs Hl. unfold gen_Mean, mean, len_ok in *. cbv zeta. unfold go_len.
-  destruct xs as [|x0 xs]; [reflexivity|].
-  destruct (Z.eqb_spec (Z.of_nat (length (x0 :: xs))) 0) as [E|_]; [simpl in E; lia|].
-  unfold fres_val, go_enum.
-  apply (mean_fold _ (fun m i x => eq_refl) (x0 :: xs) 0%nat); [reflexivity | exact Hl].
-Qed.
-
-(* ---------- Variance (Welford) ---------- *)
-Lemma var_fold (f : Q * Q -> Z * Q -> Q * Q) :
-  (forall mean M2 n x, f (mean, M2) (n, x) =
-     (mean + (x - mean) / go_i2f (go_sadd 64 n 1),
-      M2 + (x - mean) * (x - (mean + (x - mean) / go_i2f (go_sadd 64 n 1))))) ->
-  forall xs k mean M2 mean' M2', mean == mean' -> M2 == M2' ->
-  (Z.of_nat (k + length xs) < 4611686018427387904)%Z ->
-  snd (fold_left f (enum_from (Z.of_nat k) xs) (mean, M2)) == snd (var_loop xs k mean' M2').
-Proof.
-  intros Hf. induction xs as [|x xs IH]; intros k mean M2 mean' M2' H1 H2 Hk; cbn [fold_left enum_from var_loop snd]; [exact H2|].
-  replace (Z.of_nat k + 1)%Z with (Z.of_nat (S k)) by lia. rewrite Hf. cbn [length] in Hk.
-  unfold go_sadd, go_i2f. rewrite wrap_s64_small by lia.
-  replace (Z.of_nat k + 1)%Z with (Z.of_nat (S k)) by lia. fold (Qofnat (S k)).
-  apply IH; [| | lia].
-  - rewrite Qred_correct, H1. reflexivity.
-  - rewrite !Qred_correct, H1, H2. reflexivity.
-Qed.
-
-Theorem tie_Variance : forall (nanv : Q) (xs : list Q), len_ok xs ->
-  gen_Variance nanv xs == fres_val nanv (variance xs).
-Proof.
-  intros nanv xs Hl. unfold gen_Variance, variance, len_ok in *. cbv zeta. unfold go_len.
-  destruct xs as [|x0 [|x1 xs]]; [reflexivity | reflexivity |].
-  destruct (Z.eqb_spec (Z.of_nat (length (x0 :: x1 :: xs))) 0) as [E|_]; [simpl in E; lia|].
-  destruct (Z.leb_spec (Z.of_nat (length (x0 :: x1 :: xs))) 1) as [E|_]; [simpl in E; lia|].
-  unfold fres_val, go_enum.
-  match goal with |- (let '(_, y) := fold_left ?f ?l ?i in y / ?d) == _ =>
-    transitivity (snd (fold_left f l i) / d); [destruct (fold_left f l i); reflexivity|] end.
-  rewrite (var_fold _ (fun mean M2 n x => eq_refl) (x0 :: x1 :: xs) 0%nat 0 0 0 0) by (reflexivity || exact Hl).
-  unfold go_ssub, go_i2f. rewrite wrap_s64_small by (simpl length in *; lia).
-  replace (Z.of_nat (length (x0 :: x1 :: xs)) - 1)%Z with (Z.of_nat (length (x0 :: x1 :: xs) - 1)) by (simpl length; lia).
-  reflexivity.
-Qed.
-
-(* StdDev is the opaque square root of Variance (the model never takes square roots) *)
-Theorem tie_StdDev : forall (nanv : Q) (sqrtf : Q -> Q) (xs : list Q),
-  gen_StdDev nanv sqrtf xs = sqrtf (gen_Variance nanv xs).
-Proof. reflexivity. Qed.
-
-(* ---------- vec.Linspace ---------- *)
-Lemma go_range_0_seq n : go_range 0 (Z.of_nat n) = map Z.of_nat (seq 0 n).
-Proof.
-  unfold go_range. rewrite Z.sub_0_r, Nat2Z.id. apply map_ext. intros k. lia.
-Qed.
-
-Lemma Forall2_map_flip {A} (P : Z -> Q -> Prop) (g : A -> Z) (f : A -> Q) :
-  (forall a y, P (g a) y -> y == f a) ->
-  forall l ys, Forall2 P (map g l) ys -> Forall2 Qeq ys (map f l).
-Proof.
-  intros H. induction l as [|a l IH]; intros ys F; simpl in *; inversion F; subst; constructor.
-  - apply H. assumption.
-  - apply IH. assumption.
-Qed.
-
-Theorem tie_vec_Linspace : forall (lo hi : Q) (num : nat), len_ok (seq 0 num) ->
-  Forall2 Qeq (gen_Linspace lo hi (Z.of_nat num)) (linspace lo hi num).
-Proof.
-  intros lo hi num Hl. unfold len_ok in Hl. rewrite seq_length in Hl.
-  destruct num as [|[|n]].
-  - constructor.
-  - repeat constructor.
-  - unfold gen_Linspace, linspace. cbv zeta.
-    destruct (Z.eqb_spec (Z.of_nat (S (S n))) 1) as [E|_]; [lia|].
-    apply (Forall2_map_flip (fun i v => v == lo + inject_Z i * (hi - lo) / inject_Z (Z.of_nat (S (S n)) - 1)) Z.of_nat).
-    + intros a y H. rewrite Qred_correct, H. unfold Qofnat.
-      replace (Z.of_nat (S (S n) - 1)) with (Z.of_nat (S (S n)) - 1)%Z by lia. reflexivity.
-    + rewrite <- go_range_0_seq. apply fold_range_fill. intros ys i Hi.
-      cbv beta zeta. eexists; split; [reflexivity|].
-      unfold go_i2f, go_ssub. rewrite wrap_s64_small by lia. reflexivity.
 Qed.
